@@ -2,8 +2,16 @@ package props
 
 import (
 	"bytes"
+	cryptorand "crypto/rand"
+	"crypto/rsa"
+	"crypto/x509"
 	"fmt"
+	"math/big"
 	"strings"
+
+	"github.com/libp2p/go-libp2p/core/crypto"
+
+	"github.com/ucan-wg/go-ucan/did"
 
 	"github.com/ipld/go-ipld-prime"
 	"github.com/ipld/go-ipld-prime/codec/dagjson"
@@ -20,7 +28,7 @@ func init() {
 		ID:         "C06",
 		Level:      "fault_enumeration",
 		Exhaustive: true,
-		Rule: "base tokens = {delegation, invocation} x key algorithms x {minimal, all optionals, nested} payload shapes (quick: 2 Ed25519 + 2 other-algorithm tokens; thorough: all 7 pool key kinds x 2 types x 3 shapes). Fault enumeration on each sealed token: EVERY single-bit flip (exhaustive for Ed25519 bases, 1-in-4 sampled for the others in quick, exhaustive in thorough); every offset x {delete, insert 0x00/0xFF/duplicate, substitute}; field-level rewrites with the old signature (each payload field <- another valid value); signature replaced (other key, other token of the same issuer, every truncation incl. empty, zeroed, junk of 21 lengths from 1 to 70000 bytes alone and on a rewritten payload, real signature extended); header replaced by each other algorithm's header, unsigned and re-signed with the issuer key, and by 11 variants of the issuer's own header (other payload-encoding / hash / length segment, dropped, appended or inserted segments) re-signed by the issuer; envelope shape edits (extra SigPayload key, payload under the other tag, both re-signed); the field-level mutants also as DAG-JSON text plus character edits. Every mutant is offered to every decoder of its codec (token.*, delegation.* / invocation.*, bytes and reader). " +
+		Rule: "base tokens = {delegation, invocation} x key algorithms x {minimal, all optionals, nested} payload shapes (quick: 2 Ed25519 + 2 other-algorithm tokens; thorough: all 7 pool key kinds x 2 types x 3 shapes). Fault enumeration on each sealed token: EVERY single-bit flip (exhaustive for Ed25519 bases, 1-in-4 sampled for the others in quick, exhaustive in thorough); every offset x {delete, insert 0x00/0xFF/duplicate, substitute}; field-level rewrites with the old signature (each payload field <- another valid value); signature replaced (other key, a crafted RSA key whose did:key shares a several-hundred-character prefix with the issuer's - after genuine tokens of that key went through every decoder -, other token of the same issuer, every truncation incl. empty, zeroed, junk of 21 lengths from 1 to 70000 bytes alone and on a rewritten payload, real signature extended); header replaced by each other algorithm's header, unsigned and re-signed with the issuer key, and by 11 variants of the issuer's own header (other payload-encoding / hash / length segment, dropped, appended or inserted segments) re-signed by the issuer; envelope shape edits (extra SigPayload key, payload under the other tag, both re-signed); the field-level mutants also as DAG-JSON text plus character edits. Every mutant is offered to every decoder of its codec (token.*, delegation.* / invocation.*, bytes and reader). " +
 			"Oracles on every accepted mutant: (O1) no field differs from the original token; (O2) an independent envelope verifier (own did:key -> key extraction, canonical re-encoding, header/key-type match) accepts it; (O3) the returned token's accessors equal the decoded payload. " +
 			"non-trivial = mutant that still parses as CBOR/JSON; distinct = mutant bytes.",
 		Assumptions: []string{
@@ -32,7 +40,7 @@ func init() {
 		MinEvals:    floor(200000, 3000000),
 		MinDistinct: floor(8000, 150000),
 		RequiredCells: func(string) []string {
-			return []string{"mut/bitflip", "mut/delete", "mut/insert", "mut/substitute", "mut/field-rewrite", "mut/sig-other-key", "mut/sig-transplant", "mut/sig-truncated", "mut/sig-zeroed", "mut/sig-junk", "mut/sig-junk-on-rewritten-payload", "mut/sig-extended", "mut/header-swap", "mut/header-swap-resigned", "mut/own-header-variant-resigned", "mut/extra-key-resigned", "mut/other-tag-resigned", "mut/json-field-rewrite", "mut/json-char-edit",
+			return []string{"mut/bitflip", "mut/delete", "mut/insert", "mut/substitute", "mut/field-rewrite", "mut/sig-other-key", "mut/sig-transplant", "mut/sig-truncated", "mut/sig-zeroed", "mut/sig-junk", "mut/sig-junk-on-rewritten-payload", "mut/sig-extended", "mut/sig-by-did-prefix-colliding-key", "mut/header-swap", "mut/header-swap-resigned", "mut/own-header-variant-resigned", "mut/extra-key-resigned", "mut/other-tag-resigned", "mut/json-field-rewrite", "mut/json-char-edit",
 				"outcome/rejected", "outcome/accepted-same-content", "base/dlg", "base/inv", "base/ed25519", "base/non-ed25519"}
 		},
 	})
@@ -88,13 +96,12 @@ func c06MakeBase(w *mon.W, typ, shape string, iss *gen.Principal) *c06Base {
 		w.Violate("base/independent-verifier-rejects-library-output/"+iss.Alg, "the independent verifier rejects a token sealed by the library: "+err.Error(), map[string]any{"sealed": mon.Hex(sealed)})
 		return nil
 	}
-	// the decoded original is the reference for O1
-	t0, _, err := token.FromSealed(sealed)
-	if err != nil {
-		w.Inconclusive("C06 base token does not unseal: " + err.Error())
-		return nil
+	// the reference for O1 is what the issuer built and signed (read through the accessors of the
+	// constructed token); that the genuine token also unseals is C07's subject and only counted here
+	if _, _, err := token.FromSealed(sealed); err != nil {
+		w.Count("genuine-token-rejected(judged by C07)", 1)
 	}
-	return &c06Base{spec: s, tok: tk, sealed: sealed, json: js, fields: gen.Fields(t0), env: env, info: info, label: typ + "/" + shape + "/" + iss.Alg}
+	return &c06Base{spec: s, tok: tk, sealed: sealed, json: js, fields: gen.Fields(tk), env: env, info: info, label: typ + "/" + shape + "/" + iss.Alg}
 }
 
 // c06Offer gives one mutant to every decoder of its codec and applies the oracles.
@@ -302,8 +309,129 @@ func c06FieldRewrites(w *mon.W, b *c06Base) map[string]ref.V {
 	return out
 }
 
+// collidingRSA crafts a valid RSA key whose modulus shares its upper half with the victim's
+// (N' = p * nextprime(N/p)), so that the two did:key strings share a long prefix although
+// they are different principals.
+func collidingRSA(victim *gen.Principal) (*gen.Principal, error) {
+	std, err := crypto.PubKeyToStdKey(victim.Pub)
+	if err != nil {
+		return nil, err
+	}
+	vk, ok := std.(*rsa.PublicKey)
+	if !ok {
+		return nil, fmt.Errorf("not an RSA key")
+	}
+	for try := 0; try < 20; try++ {
+		p, err := cryptorand.Prime(cryptorand.Reader, vk.N.BitLen()/2)
+		if err != nil {
+			return nil, err
+		}
+		q := new(big.Int).Div(vk.N, p)
+		q.SetBit(q, 0, 1)
+		for !q.ProbablyPrime(20) {
+			q.Add(q, big.NewInt(2))
+		}
+		n := new(big.Int).Mul(p, q)
+		if n.BitLen() != vk.N.BitLen() || n.Cmp(vk.N) == 0 {
+			continue
+		}
+		e := big.NewInt(65537)
+		phi := new(big.Int).Mul(new(big.Int).Sub(p, big.NewInt(1)), new(big.Int).Sub(q, big.NewInt(1)))
+		d := new(big.Int).ModInverse(e, phi)
+		if d == nil {
+			continue
+		}
+		k := &rsa.PrivateKey{PublicKey: rsa.PublicKey{N: n, E: 65537}, D: d, Primes: []*big.Int{p, q}}
+		k.Precompute()
+		if k.Validate() != nil {
+			continue
+		}
+		priv, err := crypto.UnmarshalRsaPrivateKey(x509.MarshalPKCS1PrivateKey(k))
+		if err != nil {
+			return nil, err
+		}
+		id, err := did.FromPubKey(priv.GetPublic())
+		if err != nil {
+			return nil, err
+		}
+		return &gen.Principal{Name: "rsa-colliding-with-" + victim.Name, Alg: victim.Alg, Priv: priv, Pub: priv.GetPublic(), DID: id}, nil
+	}
+	return nil, fmt.Errorf("no colliding key found")
+}
+
+func commonPrefix(a, b string) int {
+	n := 0
+	for n < len(a) && n < len(b) && a[n] == b[n] {
+		n++
+	}
+	return n
+}
+
+// c06CollidingIssuer: a different RSA principal whose did:key shares a long prefix with the
+// victim's signs the victim's payload; genuine tokens of that principal are decoded first
+// (decoding history must not matter).
+func c06CollidingIssuer(w *mon.W) {
+	victim := gen.ByAlg("rsa2048")[0]
+	att, err := collidingRSA(victim)
+	if err != nil {
+		w.Inconclusive("C06 colliding RSA key: " + err.Error())
+		return
+	}
+	w.Note("colliding-rsa-did-common-prefix", fmt.Sprint(commonPrefix(att.DID.String(), victim.DID.String())))
+	for _, typ := range []string{"dlg", "inv"} {
+		decs := c07Decoders(typ)
+		// history: genuine tokens of the other principal go through every decoder first
+		ab := c06MakeBase(w, typ, "full", att)
+		b := c06MakeBase(w, typ, "full", victim)
+		if b == nil {
+			continue
+		}
+		if ab != nil {
+			for _, d := range decs {
+				in := ab.sealed
+				if d.codec == "dagjson" {
+					in = ab.json
+				}
+				if in != nil {
+					_, _ = d.f(in)
+				}
+			}
+		}
+		// the victim's signed part, signed by the other principal
+		data, err := ref.EncodeDagCbor(b.env.L[1])
+		if err != nil {
+			continue
+		}
+		sig, err := att.Priv.Sign(data)
+		if err != nil {
+			continue
+		}
+		e := cloneV(b.env)
+		e.L[0] = ref.Bytes(sig)
+		if enc, err := ref.EncodeDagCbor(e); err == nil {
+			c06Offer(w, b, "sig-by-did-prefix-colliding-key", enc, "dagcbor", decs)
+		}
+		if enc, err := ref.EncodeDagJson(e); err == nil && b.json != nil {
+			c06Offer(w, b, "sig-by-did-prefix-colliding-key", enc, "dagjson", decs)
+		}
+		// and with a rewritten field on top
+		rw := c06FieldRewrites(w, b)["cmd-top"]
+		if data, err := ref.EncodeDagCbor(rw.L[1]); err == nil {
+			if sig, err := att.Priv.Sign(data); err == nil {
+				rw.L[0] = ref.Bytes(sig)
+				if enc, err := ref.EncodeDagCbor(rw); err == nil {
+					c06Offer(w, b, "sig-by-did-prefix-colliding-key", enc, "dagcbor", decs)
+				}
+			}
+		}
+	}
+}
+
 func runC06(w *mon.W) {
 	r := w.Rng
+	if w.Shard == w.NShards-1 {
+		c06CollidingIssuer(w)
+	}
 	type baseDef struct {
 		typ, shape string
 		iss        *gen.Principal
